@@ -216,3 +216,38 @@ pub fn pow2_sizes(quick: bool) -> Vec<(usize, usize)> {
         vec![(512, 256), (1024, 1024), (2048, 1024), (4096, 2048), (8192, 4096)]
     }
 }
+
+/// Row-level relations inside and between the planes of a YUV image (per-line caches, "same line as above" shortcuts):
+/// a luma row repeats the row above; a chroma row repeats the row above entirely, on its left half only or on its
+/// right half only; a V row repeats the *U* row above or beside it. dims = (width, height) of each plane.
+pub fn correlate_plane_rows(planes: &mut [Vec<u16>; 3], dims: [(usize, usize); 3], seed: u64) {
+    let mut e = Expand(seed ^ 0x9_1A4E);
+    for _ in 0..2 + e.below(4) {
+        let pl = e.below(3) as usize;
+        let (w, h) = dims[pl];
+        if h < 2 || w == 0 {
+            continue;
+        }
+        let y = 1 + e.below(h as u64 - 1) as usize;
+        let (lo, hi) = match e.below(4) {
+            0 | 1 => (0, w),
+            2 => (0, w / 2),
+            _ => (w / 2, w),
+        };
+        // source: the row above in the same plane, or (chroma) the row above / the same row of the other chroma plane
+        let src_plane = if pl > 0 && dims[1] == dims[2] && e.below(3) == 0 { 3 - pl } else { pl };
+        let src_row = if src_plane != pl && e.below(2) == 0 { y } else { y - 1 };
+        for x in lo..hi {
+            let v = planes[src_plane][src_row * w + x];
+            planes[pl][y * w + x] = v;
+        }
+    }
+    // and often a luma row equal to the one above together with an almost equal chroma row pair
+    if dims[0].1 >= 2 && e.below(2) == 0 {
+        let (w, h) = dims[0];
+        let y = 1 + e.below(h as u64 - 1) as usize;
+        for x in 0..w {
+            planes[0][y * w + x] = planes[0][(y - 1) * w + x];
+        }
+    }
+}
